@@ -443,6 +443,90 @@ func globalWrites(pkgs []*packages.Package, repo string) [][2]string {
 	return out
 }
 
+// ---- URN redaction census ------------------------------------------------------------------------------
+
+// every call of RedactionPolicy(): (file, function); and every method call on a URN-carrying type made inside a
+// function that returns expression values: (function, receiver type, method)
+func redactionCensus(pkgs []*packages.Package, repo string) (uses [][2]string, reads [][3]string) {
+	seenR := map[[3]string]bool{}
+	for _, p := range pkgs {
+		for _, f := range p.Syntax {
+			rel, _ := filepath.Rel(repo, p.Fset.File(f.Pos()).Name())
+			if strings.HasPrefix(rel, "cmd/") || strings.HasPrefix(rel, "test/") || strings.HasPrefix(rel, "antlr/") || strings.HasPrefix(rel, "services/") {
+				continue
+			}
+			for _, d := range f.Decls {
+				fd, ok := d.(*ast.FuncDecl)
+				if !ok || fd.Body == nil {
+					continue
+				}
+				fname := fd.Name.Name
+				if fd.Recv != nil && len(fd.Recv.List) > 0 {
+					fname = exprText(p.Fset, fd.Recv.List[0].Type) + "." + fname
+				}
+				returnsX := false
+				if fd.Type.Results != nil {
+					for _, r := range fd.Type.Results.List {
+						if t := p.TypesInfo.TypeOf(r.Type); t != nil && strings.Contains(t.String(), "excellent/types.X") {
+							returnsX = true
+						}
+					}
+				}
+				ast.Inspect(fd.Body, func(n ast.Node) bool {
+					call, ok := n.(*ast.CallExpr)
+					if !ok {
+						return true
+					}
+					sel, ok := call.Fun.(*ast.SelectorExpr)
+					if !ok {
+						return true
+					}
+					if sel.Sel.Name == "RedactionPolicy" {
+						uses = append(uses, [2]string{rel, fname})
+					}
+					if returnsX {
+						if t := p.TypesInfo.TypeOf(sel.X); t != nil {
+							ts := t.String()
+							if strings.HasSuffix(ts, "urns.URN") || strings.HasSuffix(ts, "flows.ContactURN") || strings.HasSuffix(ts, "flows.URNList") {
+								ts = ts[strings.LastIndex(ts, "/")+1:]
+								seenR[[3]string{fname, ts, sel.Sel.Name}] = true
+							}
+						}
+					}
+					return true
+				})
+			}
+		}
+	}
+	sort.Slice(uses, func(i, j int) bool { return uses[i][0]+"|"+uses[i][1] < uses[j][0]+"|"+uses[j][1] })
+	for r := range seenR {
+		reads = append(reads, r)
+	}
+	sort.Slice(reads, func(i, j int) bool { return strings.Join(reads[i][:], "|") < strings.Join(reads[j][:], "|") })
+	return
+}
+
+func emitRedaction(uses [][2]string, reads [][3]string, out string) {
+	var b strings.Builder
+	b.WriteString("-- GENERATED by gfmaps; do not edit\nnamespace GoflowModel.Gen.Redaction\n\n/-- every call of RedactionPolicy(): (file, function) -/\ndef policyUses : List (String × String) := [")
+	var xs []string
+	for _, u := range uses {
+		xs = append(xs, "("+leanStr(u[0])+", "+leanStr(u[1])+")")
+	}
+	b.WriteString(strings.Join(xs, ", "))
+	b.WriteString("]\n\n/-- method calls on URN-carrying values inside functions that return expression values: (function, receiver type, method) -/\ndef urnReads : List (String × String × String) := [")
+	xs = nil
+	for _, r := range reads {
+		xs = append(xs, "("+leanStr(r[0])+", "+leanStr(r[1])+", "+leanStr(r[2])+")")
+	}
+	b.WriteString(strings.Join(xs, ", "))
+	b.WriteString("]\n\nend GoflowModel.Gen.Redaction\n")
+	old, err := os.ReadFile(out)
+	if err != nil || string(old) != b.String() {
+		os.WriteFile(out, []byte(b.String()), 0o644)
+	}
+}
+
 func identOf(e ast.Expr) *ast.Ident {
 	id, _ := e.(*ast.Ident)
 	return id
@@ -564,6 +648,8 @@ func main() {
 			os.Exit(2)
 		}
 	}
+	pu, ur := redactionCensus(pkgs, *repo)
+	emitRedaction(pu, ur, filepath.Join(filepath.Dir(*out), "Redaction.lean"))
 	ws := fieldWrites(pkgs, *repo)
 	emitWrites(ws, globalWrites(pkgs, *repo), filepath.Join(filepath.Dir(*out), "FieldWrites.lean"))
 	fmt.Printf("gfmaps: %d map-range sites, %d receiver field writes\n", len(sites), len(ws))
